@@ -1042,7 +1042,7 @@ class _Align(Blockwise):
 
     def _divisions(self):
         # Aligning, so take first frames divisions
-        return self.frame._divisions()
+        return self.frame.divisions
 
 
 class AlignGetitem(Blockwise):
